@@ -26,6 +26,7 @@ ASSUMPTIONS = ['KT: numbers are exact decimal reals (Decimal(str(x)) is the shor
 TRUSTED = ['kt/kt.py, kt/models_math.py (Decimal, round, localcontext, math.trunc/ceil/floor models)', 'library contract table in props/c16.py']
 
 BIG = 10 ** 15
+BIG2 = 10 ** 25
 
 
 def norm(leaf, model):
@@ -66,8 +67,10 @@ def ref_round(q, n, kind):
 def py_ref_round(x, n, kind):
     d = decimal.Decimal(str(x))
     mode = {'ROUND': decimal.ROUND_HALF_UP, 'ROUNDUP': decimal.ROUND_UP, 'ROUNDDOWN': decimal.ROUND_DOWN, 'TRUNC': decimal.ROUND_DOWN}[kind]
-    q = decimal.Decimal(1).scaleb(-n)
-    return float(d.quantize(q, rounding=mode)) if n >= 0 else float((d / decimal.Decimal(10) ** (-n)).quantize(decimal.Decimal(1), rounding=mode) * decimal.Decimal(10) ** (-n))
+    with decimal.localcontext() as ctx:
+        ctx.prec = 400          # the reference needs room for every digit of a double
+        q = decimal.Decimal(1).scaleb(-n)
+        return float(d.quantize(q, rounding=mode)) if n >= 0 else float((d / decimal.Decimal(10) ** (-n)).quantize(decimal.Decimal(1), rounding=mode) * decimal.Decimal(10) ** (-n))
 
 
 def leaf_n(l, n):
@@ -85,7 +88,7 @@ def kt_obs(tier):
     q, n = z3.Real('q'), z3.Int('n')
     qdom = [q >= -BIG, q <= BIG]
     ndom = [n >= -10, n <= 10]
-    SAMP_Q = [(5, 2), (-5, 2), (1234567, 1000), (-1234567, 1000), (0, 1), (15, 100), (-15, 100), (999999, 1), (25, 10), (-25, 10), (1, 3)]
+    SAMP_Q = [(5, 2), (-5, 2), (1234567, 1000), (-1234567, 1000), (0, 1), (15, 100), (-15, 100), (999999, 1), (25, 10), (-25, 10), (1, 3), (12345678901234500, 1)]
 
     def samples2():
         out = []
@@ -102,12 +105,12 @@ def kt_obs(tier):
                 f = inspect.unwrap(getattr(XM, kind))
 
                 def encode():
-                    leaves, it = K.explore(f, [q, n], qdom + ndom, MM.MATH_MODELS)
+                    leaves, it = K.explore(f, [q, n], [q >= -BIG2, q <= BIG2] + ndom, MM.MATH_MODELS)
                     return leaves, it, {'q': q, 'n': n}
 
                 def bad(l):
                     if l.kind != 'return':
-                        return True
+                        return True          # any exception (decimal.InvalidOperation on large magnitudes included) is a violation
                     k = leaf_n(l, n)
                     if k is None:
                         return True
@@ -122,7 +125,7 @@ def kt_obs(tier):
                             models=['kt/models_math.py: Decimal(str(x)), localcontext().rounding, round(Decimal, n), float'])
             return spec
         direction = {'ROUND': 'half away from zero', 'ROUNDUP': 'away from zero', 'ROUNDDOWN': 'toward zero'}[kind]
-        obs.append(kt_ob(f'c16.{kind}', mk(kind), family='c16.rounding', bounds=f'{kind}(q, n): every real q in -10^15..10^15 (exact decimal value), every digit count n in -10..10: decimal rounding {direction}', cost=30, timeout=300))
+        obs.append(kt_ob(f'c16.{kind}', mk(kind), family='c16.rounding', bounds=f'{kind}(q, n): every real q in -10^25..10^25 (exact decimal value), every digit count n in -10..10: decimal rounding {direction}, never an exception (decimal context precision modelled)', cost=30, timeout=300))
 
     def sp_int():
         f = inspect.unwrap(XM.INT)
@@ -138,7 +141,7 @@ def kt_obs(tier):
             x = frac(a['q'])
             got = nat(XM.INT, x)
             return got == ('num', float(math.floor(x))), f'INT({x!r}) = {got}, floor = {math.floor(x)}'
-        return dict(encode=encode, bad=bad, replay=replay, norm=norm, native=lambda a: nat(XM.INT, frac(a['q'])), samples=[{'q': s} for s in SAMP_Q if s[1] != 3], show=lambda a: f'INT({frac(a["q"])})')
+        return dict(encode=encode, bad=bad, replay=replay, norm=norm, native=lambda a: nat(XM.INT, frac(a['q'])), samples=[{'q': s} for s in SAMP_Q if s[1] != 3 and abs(s[0]) <= BIG * s[1]], show=lambda a: f'INT({frac(a["q"])})')
     obs.append(kt_ob('c16.INT', sp_int, family='c16.rounding', bounds='INT(q): every real q in -10^15..10^15: toward minus infinity (floor)', cost=10))
 
     def sp_trunc():
@@ -190,7 +193,7 @@ def kt_obs(tier):
             e = math.ceil(abs(x) / 2) * 2
             got = nat(XM.EVEN, x)
             return got == ('num', float(-e if x < 0 else e)), f'EVEN({x!r}) = {got}'
-        return dict(encode=encode, bad=bad, replay=replay, norm=norm, native=lambda a: nat(XM.EVEN, frac(a['q'])), samples=[{'q': s} for s in SAMP_Q if s[1] != 3], show=lambda a: f'EVEN({frac(a["q"])})')
+        return dict(encode=encode, bad=bad, replay=replay, norm=norm, native=lambda a: nat(XM.EVEN, frac(a['q'])), samples=[{'q': s} for s in SAMP_Q if s[1] != 3 and abs(s[0]) <= BIG * s[1]], show=lambda a: f'EVEN({frac(a["q"])})')
     obs.append(kt_ob('c16.EVEN', sp_even, family='c16.rounding', bounds='EVEN(q): every real q in -10^15..10^15: next even integer away from zero', cost=10))
 
     def sp_floor():
